@@ -10,9 +10,7 @@ namespace PgmVerif
 def elimVarWith (elim : Factor → List Var → Factor) (fs : List Factor) (v : Var) : List Factor :=
   let uses := fs.filter (fun f => f.scope.contains v)
   let rest := fs.filter (fun f => !f.scope.contains v)
-  match uses with
-  | [] => rest
-  | _ => rest ++ [elim (Factor.productAll uses) [v]]
+  if uses.isEmpty then rest else rest ++ [elim (Factor.productAll uses) [v]]
 
 def elimVar := elimVarWith Factor.marginalize
 def veRun (fs : List Factor) (order : List Var) : List Factor := order.foldl elimVar fs
